@@ -2,8 +2,11 @@
 
 IMPL   harness/h_c14_probe.cpp   the functor_t / functor_composition_t / combinator machinery observed with pure probe functors
        harness/h_c14_fn.cpp      functors of array/functional: all at once / curried in every split vs the direct view call
-       harness/h_c14_ext.cpp     get_function_composition / get_function_operands / apply / get_compute_graph on views of depth 1..4
-MODEL  lean/NmVerif/Functional.lean (applyFn, applyComp/run, FC.mul, combinators, compile, operandsOf, IView.graph) over symbolic values
+       harness/h_c14_ext.cpp     get_function_composition / get_function_operands / apply / get_compute_graph on views of depth 1..4,
+                                 operands of every kind the extraction code tells apart: host arrays, aliased arrays, number literals,
+                                 array-valued views and NUMBER-valued views (reductions over all axes: 0-d, `is_num_v` AND `is_view_v`)
+MODEL  lean/NmVerif/Functional.lean (applyFn, applyComp/run, FC.mul, combinators, compile with the operand dispatch `View.dispatch`,
+       operandsOf, IView.graph) over symbolic values
 ORACLE python: composition as function composition on operand lists following the parenthesisation tree; NumPy for the view
        programs; expected operand list = leaves in reading order; expected graph = one node per leaf occurrence and operation.
 """
@@ -18,7 +21,8 @@ LEVEL = 'proof'
 RULE = ('probe machine: every composition of a menu of 75 (1..5 functors: probes of arity 1..5 in every position, swap/dup/dig/bury left-most, in the middle and right-most, '
         'every parenthesisation of 3- and 4-chains, (f*g)*(h*k), prebuilt composition blocks multiplied with themselves / each other / functors) x every split of the operand list into chunks '
         '(exact, over- and under-supplied), attribute/operand interleavings for arity 1..5; functors: 43 functors of array/functional (indexing, ufunc, reduce, accumulate, outer, matmul, pooling, norms, activations) '
-        'x every curry split and attribute-before/after-operand form vs the direct view, random shapes dim 1..4; extraction: 46 view trees of depth 1..4 with the sub-view in every operand position of unary / binary / ternary nodes '
+        'x every curry split and attribute-before/after-operand form vs the direct view, random shapes dim 1..4; extraction: 67 view trees of depth 1..4 with the sub-view in every operand position of unary / binary / ternary nodes, '
+        'number-valued sub-views (reduce_add / reduce_maximum / sum over all axes) as first and non-first operands of binary ufuncs alone, nested, under and over other nodes, with repeated and aliased leaves, number literal operands in either position, where with a number-valued condition '
         '(operand identity by address, static arity, apply(composition, operands) vs view, compute graphs incl. aliased leaves). non-trivial = more than one functor or more than one chunk; every functor / extraction case')
 EXHAUSTIVE = {'quick': False, 'thorough': False}
 ANCHORS = {'NmVerif.Functional.applyFn': 'functional::apply_function_t<functor_t>::operator() (functor.hpp:368-428), functor_t::operator[] / operator()',
@@ -26,12 +30,13 @@ ANCHORS = {'NmVerif.Functional.applyFn': 'functional::apply_function_t<functor_t
            'NmVerif.Functional.FC.mul': 'functor_t::operator* / operator*(functor_composition_t, ...) (functor.hpp:288-300,348-366)',
            'NmVerif.Functional.swapF/dupF/digF/buryF': 'combinator::swap / dup / dig_n / bury_n (combinator.hpp)',
            'NmVerif.Functional.View.compile': 'functional::get_function_composition (function_composition.hpp:14-128)',
+           'NmVerif.Functional.View.dispatch': 'the if-constexpr chain over the operand kind in both get_function_composition_t specialisations (function_composition.hpp:55-65, 106-124): alias / view / number-or-array-that-is-not-a-view, in that order',
            'NmVerif.Functional.View.operandsOf': 'functional::get_function_operands (functor.hpp:776-812)',
            'NmVerif.Functional.Comp.arity': 'functor_composition_t::arity (functor.hpp:134-146), demanded equal to the operand count by functional::apply (functor.hpp:833-835)',
            'NmVerif.Functional.IView.graph': 'functional::get_compute_graph (compute_graph.hpp:14-275) over utility::ct_map / ct_digraph',
            'NmVerif.Functional.generateAlias': 'index::generate_alias (index/alias.hpp:60-88)'}
 MANIFEST = dict(
-    text='Proof: Lean theorems over ARBITRARY functors (any arity, any operand/attribute types): currying in every split equals one call (curry_any_split, curry_chunks), composition = apply the right-most functor and pass the rest on (comp_apply, comp_two), parenthesisation irrelevant (comp_assoc), combinators are the stated permutations, and a compiler-correctness theorem for extraction (compile_correct/compile_frame: extracted composition applied to extracted operands = host evaluation, by induction on the view tree) on the trees where it holds — with a machine-checked counterexample outside — and compile_arity (the static arity of the extracted composition is the number of extracted operands for every well-formed tree, so functional::apply compiles); tied to the C++ by differential runs of the real functor machinery (probe functors), of the array/functional functors against direct view calls, and of extraction / operand identity / compute graphs on view trees.',
+    text='Proof: Lean theorems over ARBITRARY functors (any arity, any operand/attribute types): currying in every split equals one call (curry_any_split, curry_chunks), composition = apply the right-most functor and pass the rest on (comp_apply, comp_two), parenthesisation irrelevant (comp_assoc), combinators are the stated permutations, and a compiler-correctness theorem for extraction (compile_correct/compile_frame: extracted composition applied to extracted operands = host evaluation, by induction on the view tree) on the trees where it holds — with a machine-checked counterexample outside — and compile_arity (the static arity of the extracted composition is the number of extracted operands for every well-formed tree, so functional::apply compiles), compile_one_functor_per_op (one functor per operation, none for arrays / aliases / literals) and operand_dispatch (the type-trait chain applied to every operand never drops the composition of a view, in particular not of a number-valued view, which is a number and a view at once); the view trees of these theorems contain every operand kind the code distinguishes (host array, alias, number literal, array-valued view, number-valued view); tied to the C++ by differential runs of the real functor machinery (probe functors), of the array/functional functors against direct view calls, and of extraction / operand identity / compute graphs on view trees.',
     note='Lean kernel + propext/Classical.choice/Quot.sound. Node-id uniqueness of the compute graph is not a theorem (ids are hashes mod 1033 and graph-size counters): checked per explored program. Known findings: extraction is wrong when a view operand is not the first operand (also for view::softmax of the library itself; repair proposed: fixes/C14-extract.nonfirst-view-operand.diff, follow-up on branch w4/c1314-postfix); compute-graph ids of sibling sub-views over un-aliased leaves collide (no small repair: ids are part of the view type). Repaired: dangling reference in get_function_composition (regression programs kept; ASan build in the thorough tier).',
     technique='Lean 4 proofs over an abstract stack machine (compiler correctness by mutual structural induction) + differential correspondence')
 ASSUMPTIONS = ['functors are pure functions of (attributes, operands)',
@@ -241,14 +246,34 @@ OPS = {
     'where': lambda x, p: np.where(x[0] != 0, x[1], x[2]),
     'bcast': lambda x, p: np.broadcast_to(x[0], p['bshape']),
     'reshape_v': lambda x, p: x[0].reshape(1, -1) if x[0].ndim == 1 else x[0],
+    # number-valued views: reduction over ALL axes, keepdims false (a 0-d result that broadcasts like a scalar)
+    'reduce_add_all': lambda x, p: np.sum(x[0]),
+    'reduce_max_all': lambda x, p: np.max(x[0]),
 }
+PSEUDO = {'bcast', 'reshape_v', 'concatenate0'}      # python-only helper nodes (no functor of their own / a different functor structure)
+NUMBER_VALUED = {'reduce_add_all', 'reduce_max_all'}
+
+
+def tree_ops(t):
+    """operations of a term, or None when it contains python-only helper nodes"""
+    name, args = t
+    if not args:
+        return 0
+    if name in PSEUDO:
+        return None
+    sub = [tree_ops(a) for a in args]
+    return None if any(x is None for x in sub) else 1 + sum(sub)
+
+
+def has_number_valued(t):
+    return t[0] in NUMBER_VALUED or any(has_number_valued(a) for a in t[1])
 
 
 def eval_term(t, env, params):
-    """t: parsed term over leaves `x<i>` / `<i>` / `a<i>`"""
+    """t: parsed term over leaves `x<i>` / `<i>` (host array i) / `a<i>` (aliased) / `s<i>` (operand i is a number literal)"""
     name, args = t
     if not args:
-        m = re.fullmatch(r'[xa]?(\d+)', name)
+        m = re.fullmatch(r'[xas]?(\d+)', name)
         return env[int(m.group(1))]
     return OPS[name]([eval_term(a, env, params) for a in args], params)
 
@@ -256,8 +281,16 @@ def eval_term(t, env, params):
 def tree_leaves(t):
     name, args = t
     if not args:
-        return [int(re.fullmatch(r'[xa]?(\d+)', name).group(1))]
+        return [int(re.fullmatch(r'[xas]?(\d+)', name).group(1))]
     return [l for a in args for l in tree_leaves(a)]
+
+
+def tree_literals(t):
+    """operand indices that are number literals (`s<i>`)"""
+    name, args = t
+    if not args:
+        return [int(name[1:])] if name.startswith('s') else []
+    return [l for a in args for l in tree_literals(a)]
 
 
 def tree_depth(t):
@@ -284,11 +317,12 @@ def perm(rng, n):
 def _ext_progs():
     pr = {}
 
-    def add(name, group, tree, gen, graph=False, nonfirst=False, bview=False, sibling=False, data='prov'):
+    def add(name, group, tree, gen, graph=False, nonfirst=False, bview=False, sibling=False, data='prov', nfun=None):
         # nonfirst: a view operand that is not the first operand; bview: binary ufunc over a view operand (regression class of the
         # repaired dangling reference in get_function_composition: ordinary in-domain programs);
         # sibling: two sibling sub-views over un-aliased leaves (compute-graph node ids collide)
-        pr[name] = dict(group=group, tree=tree, gen=gen, graph=graph, nonfirst=nonfirst, bview=bview, sibling=sibling, data=data)
+        # nfun: number of functors the extracted composition must have when that is not the number of operations of `tree`
+        pr[name] = dict(group=group, tree=tree, gen=gen, graph=graph, nonfirst=nonfirst, bview=bview, sibling=sibling, data=data, nfun=nfun)
 
     def g_tr(rng):
         s = rshape(rng); return [s], dict(axes=perm(rng, len(s)))
@@ -384,12 +418,66 @@ def _ext_progs():
     add('d4_add_nmn_sxn', 10, 'add(negative(multiply(negative(0),1)),subtract(2,negative(3)))', g_quad, nonfirst=True)
     add('d4_sum_add_x_tr_neg', 10, 'reduce_add(add(0,transpose(negative(1))))', g_sum_add_x_tr, nonfirst=True)
     add('d4_neg_sub_mul_neg', 10, 'negative(subtract(multiply(negative(0),1),2))', g_tri, bview=True)
+    # ---- NUMBER-valued sub-views: reduce_add_all / reduce_max_all = reduction over all axes (axis None, keepdims false), an
+    #      `is_num_v` view, as an operand of a broadcasting binary ufunc (which looks through the broadcast_to around it) ----
+    def g_free2(rng):
+        return [rshape(rng), rshape(rng)], {}
+    def g_one(rng):
+        return [rshape(rng)], {}
+    def g_sum_free(rng):
+        s = rshape(rng, min_rank=2); return [s, rshape(rng)], dict(axis=rng.randrange(len(s)))
+    def g_pair_free(rng):
+        s = rshape(rng); return [s, bpartner(rng, s), rshape(rng)], {}
+    def g_free_pair(rng):
+        s = rshape(rng); return [rshape(rng), s, bpartner(rng, s)], {}
+    def g_free_tr(rng):
+        s = rshape(rng); return [rshape(rng), s], dict(axes=perm(rng, len(s)))
+    def g_free_axis(rng):
+        s = rshape(rng, min_rank=2); return [rshape(rng), s], dict(axis=rng.randrange(len(s)))
+    add('mul_sumall_x', 11, 'multiply(reduce_add_all(0),1)', g_free2, graph=True, bview=True)
+    add('sub_maxall_x', 11, 'subtract(reduce_max_all(0),1)', g_free2, bview=True)
+    add('mul_vsumall_x', 11, 'multiply(reduce_add_all(0),1)', g_free2, bview=True)             # view::sum(a, None)
+    add('add_x_maxall', 11, 'add(0,reduce_max_all(1))', g_free2, nonfirst=True)
+    add('sub_sumall_x_rep', 11, 'subtract(reduce_add_all(0),0)', g_one, bview=True)           # repeated leaf
+    add('sub_x_sumall_rep', 11, 'subtract(0,reduce_add_all(0))', g_one, nonfirst=True)
+    add('mul_sumall_neg_x', 11, 'multiply(reduce_add_all(negative(0)),1)', g_free2, bview=True)
+    add('mul_sumall_sum_x', 11, 'multiply(reduce_add_all(reduce_add(0)),1)', g_sum_free, bview=True)
+    add('neg_mul_sumall_mul_x', 12, 'negative(multiply(reduce_add_all(multiply(0,1)),2))', g_pair_free, bview=True)
+    add('add_mul_sumall_x_x', 12, 'add(multiply(reduce_add_all(0),1),2)', g_free_pair, bview=True)
+    add('tr_add_maxall_x', 12, 'transpose(add(reduce_max_all(0),1))', g_free_tr, bview=True)
+    add('mul_x_sumall_mul', 12, 'multiply(0,reduce_add_all(multiply(1,2)))', g_free_pair, nonfirst=True)
+    add('sum_mul_maxall_x', 12, 'reduce_add(multiply(reduce_max_all(0),1))', g_free_axis, bview=True)
+    add('al_mul_sumall', 12, 'multiply(reduce_add_all(a0),a1)', g_free2, graph=True, bview=True)
+    # ---- number LITERAL operands (`s<i>`: operand i of the program is the literal `lit`, its shapes= entry a dummy) of binary ufuncs in
+    #      either position: held by value in the extracted operand tuple, no functor of their own; ternary where with a number-valued
+    #      condition (where broadcasts all three operands with broadcast_to VIEWS: non-first view operands, the known class) ----
+    def lit(rng):
+        return rng.choice([-7, -2, -1, 0, 1, 2, 3, 5, 11])
+    def g_x_lit(rng):
+        return [rshape(rng), [1]], dict(lit=lit(rng), litidx=1)
+    def g_lit_x(rng):
+        return [[1], rshape(rng)], dict(lit=lit(rng), litidx=0)
+    def g_x_lit_x(rng):
+        s = rshape(rng); return [s, [1], bpartner(rng, s)], dict(lit=lit(rng), litidx=1)
+    def g_sum_lit(rng):
+        s = rshape(rng, min_rank=2); return [s, [1]], dict(axis=rng.randrange(len(s)), lit=lit(rng), litidx=1)
+    def g_where_num(rng):
+        s = rshape(rng, cap=24); return [rshape(rng), s, bpartner(rng, s)], dict(bshape=s)
+    def g_where_lit(rng):
+        s = rshape(rng, cap=24); return [[1], s, bpartner(rng, s)], dict(bshape=s, lit=rng.choice([0, 0, 1, -3]), litidx=0)
+    add('add_x_lit', 13, 'add(0,s1)', g_x_lit)
+    add('mul_lit_x', 13, 'multiply(s0,1)', g_lit_x)
+    add('neg_add_mul_x_lit_x', 13, 'negative(add(multiply(0,s1),2))', g_x_lit_x, bview=True)
+    add('add_sum_lit', 13, 'add(reduce_add(0),s1)', g_sum_lit, bview=True)
+    add('sub_lit_neg_x', 13, 'subtract(s0,negative(1))', g_lit_x, nonfirst=True)
+    add('where_maxall', 13, 'where(bcast(reduce_max_all(0)),bcast(1),bcast(2))', g_where_num, nonfirst=True)
+    add('where_lit', 13, 'where(bcast(s0),bcast(1),bcast(2))', g_where_lit, nonfirst=True)
     return pr
 
 
 EXT = _ext_progs()
-EXT_GROUPS = [1, 2, 3, 4, 5, 6, 7, 8, 9, 10]
-SAN_GROUPS = [2, 3, 5, 6, 7, 8, 10]      # the groups with binary ufuncs over view operands / depth 3-4 trees
+EXT_GROUPS = [1, 2, 3, 4, 5, 6, 7, 8, 9, 10, 11, 12, 13]
+SAN_GROUPS = [2, 3, 5, 6, 7, 8, 10, 11, 12, 13]      # the groups with binary ufuncs over view operands / depth 3-4 trees
 
 
 def parse_kv(ans):
@@ -512,12 +600,13 @@ def ext_cases(tier, rng):
     for name, pg in EXT.items():
         t = parse_term(pg['tree'])
         h = 'h_c14_ext%d' % pg['group']
-        tplain = re.sub(r'\ba(\d+)', r'\1', pg['tree'])
         made = tries = 0
         while made < ncase and tries < 10 * ncase:
             tries += 1
             shapes, params = pg['gen'](rng)
             env = [leaf(s, j, pg['data']) for j, s in enumerate(shapes)]
+            for j in tree_literals(t):
+                env[j] = np.int64(params['lit'])
             try:
                 res = np.asarray(eval_term(t, env, params))
             except ValueError:
@@ -528,9 +617,12 @@ def ext_cases(tier, rng):
             req = ' '.join(('c14_extract prog=%s shapes=%s %s data=%s' % (name, fmt_lists(shapes), fmt_params(params), pg['data'])).split())
             off = pg['nonfirst']
             # fn::apply demands (static_assert) that the arity of the extracted function is the number of extracted operands
-            oracle = 'ok leaves=%s arity=%d result=%s' % (fmt(tree_leaves(t)), len(tree_leaves(t)), fmt_arr(res))
-            yield Case(req, h, dom=not off, oracle=oracle, mreq='c14_extract tree=%s' % tplain, cmp=make_extract_cmp(env, params),
-                       tags=['extract', 'prog=' + name, 'depth=%d' % tree_depth(t)] + (['nonfirst'] if pg['nonfirst'] else []) + (['bview'] if pg['bview'] else []))
+            # … and one functor per operation of the view tree (Props.C14.compile_one_functor_per_op)
+            nf = pg['nfun'] if pg['nfun'] is not None else tree_ops(t)
+            oracle = 'ok leaves=%s arity=%d%s result=%s' % (fmt(tree_leaves(t)), len(tree_leaves(t)), '' if nf is None else ' nfun=%d' % nf, fmt_arr(res))
+            yield Case(req, h, dom=not off, oracle=oracle, mreq='c14_extract tree=%s' % pg['tree'], cmp=make_extract_cmp(env, params),
+                       tags=['extract', 'prog=' + name, 'depth=%d' % tree_depth(t)] + (['nonfirst'] if pg['nonfirst'] else []) + (['bview'] if pg['bview'] else [])
+                            + (['number-valued-view'] if has_number_valued(t) else []) + (['literal-operand'] if tree_literals(t) else []))
             if pg['graph'] and made <= 2:
                 greq = ' '.join(('c14_graph prog=%s shapes=%s %s data=%s' % (name, fmt_lists(shapes), fmt_params(params), pg['data'])).split())
                 yield Case(greq, h, dom=not pg['sibling'], oracle=ideal_graph(t), mreq='c14_graph tree=%s' % pg['tree'], cmp=graph_cmp,
